@@ -4,7 +4,7 @@
 From Coq Require Import ZArith List Bool Arith Lia.
 From SP Require Import Design.Flat Design.Layout Design.Sem Comb.CombModel Comb.CombSpec Random.Enum Random.Frag
   Random.FragSem Random.RunLemmas Random.Frag0Enum Random.Frag0Decode Random.Frag0Sem Random.Frag0Valid
-  Random.Frag0Keys.
+  Random.Frag0Keys Random.Frag0Inj.
 Import ListNotations.
 Open Scope nat_scope.
 
@@ -59,6 +59,43 @@ Proof.
   intros Hin Hdec _. pose proof (f0_keys_of_ok k Hin) as Hk.
   destruct (f0_decode_key k Hk) as [r [Hd Hrow]]. rewrite Hd in Hdec. inversion Hdec; subst cand.
   apply (f0_valid fb HF Hq k Hk r Hrow).
+Qed.
+
+
+Lemma tseq_nth (r : run) g : g < length (fl_design fb) -> nth g (tseq_of_run fb r) [] = row_of_run r g.
+Proof.
+  intros Hg. unfold tseq_of_run.
+  change (fun f : nat => match rlookup r f with Some row => row | None => [] end) with (row_of_run r).
+  rewrite nth_indep with (d' := row_of_run r 0) by (rewrite map_length, seq_length; exact Hg).
+  rewrite map_nth. rewrite seq_nth by exact Hg. reflexivity.
+Qed.
+
+(** C05, injectivity on F0: two keys with the same trial sequence are the same key *)
+Theorem f0_cand_inj k1 k2 c1 c2 :
+  In k1 (keys_of fb) -> In k2 (keys_of fb) ->
+  decode_key fb k1 = Some c1 -> decode_key fb k2 = Some c2 ->
+  tseq_of_run fb c1 = tseq_of_run fb c2 -> k1 = k2.
+Proof.
+  intros H1 H2 D1 D2 E. pose proof (f0_keys_of_ok k1 H1) as Hk1. pose proof (f0_keys_of_ok k2 H2) as Hk2.
+  destruct (f0_decode_key k1 Hk1) as [r1 [Hd1 Hr1]]. destruct (f0_decode_key k2 Hk2) as [r2 [Hd2 Hr2]].
+  rewrite Hd1 in D1. rewrite Hd2 in D2. inversion D1; inversion D2; subst c1 c2.
+  apply (f0_decode_inj fb HF Hq k1 k2 Hk1 Hk2). intros g Hg.
+  rewrite <- Hr1, <- Hr2, <- !tseq_nth by exact Hg. rewrite E. reflexivity.
+Qed.
+
+Theorem f0_keys_nodup : NoDup (keys_of fb).
+Proof.
+  rewrite f0_keys_of. destruct (fl_errors_fail fb || (en_count en =? 0)%Z); [constructor|].
+  apply (f0_keys_NoDup fb HF Hq).
+Qed.
+
+(** the number of keys RandomGen draws from is [possible_keys] *)
+Theorem f0_keys_count :
+  fl_errors_fail fb = false -> (en_count en =? 0)%Z = false ->
+  make_enumerator fb = ROk en /\ Z.of_nat (length (keys_of fb)) = possible_keys fb en.
+Proof.
+  intros He Hc. split; [apply (f0_make_enumerator fb HF Hq)|].
+  rewrite f0_keys_of, He, Hc. cbn [orb]. apply (f0_keys_length fb HF Hq).
 Qed.
 
 End F0T.
